@@ -259,3 +259,20 @@ PROPS["C20"] = {
     "trusted": [],
     "assumptions": ["texts containing a double quote or NUL are not generated (Coq string literal syntax)"],
 }
+
+PROPS["C19"] = {
+    "level_text": "Theorems (Props/C19.v), general arithmetic proofs (lia with div/mod equations) with no bound on the day number: the year function is correct for EVERY day (dby(y) <= z < dby(y+1)), day numbers and valid civil dates are inverse bijections (month/day tables by complete 365/366 and 12 x 31 sweeps); hence instant -> record -> instant is the identity to the nanosecond for every instant of the years 1..9999 (any zone: zones do not change instants), record -> instant -> record is the identity on every record with valid calendar fields, the instant is the proleptic Gregorian UTC date and time of the fields (plus the signed nanosecond offset with borrow for the GNSS record); validity flags = bits 0,1,2 for all 256 bytes over the generated functions. Correspondence against Go's time package with boundary-biased instants and zones.",
+    "level_note": "Trusted: Coq kernel; hand-written model of time.Date / Time.UTC().Date()/Clock() (validated against Go's time package by correspondence); translator (validity expressions); harness. No axioms.",
+    "technique": "Rocq proof (linear arithmetic with div/mod, finite table sweeps) over a Gallina calendar model + differential correspondence against Go's time package",
+    "props_file": "Props/C19.v",
+    "eval_module": "Run.EvalTime",
+    "kinds": {
+        "t2r": {"type": "case_t2r", "chk": "chk_t2r", "sig": "sig_t2r", "scope": "Z_scope"},
+        "r2t": {"type": "case_r2t", "chk": "chk_r2t", "sig": "sig_r2t", "scope": "Z_scope"},
+        "gnss": {"type": "case_gnss", "chk": "chk_gnss", "sig": "sig_gnss", "scope": "Z_scope"},
+        "valid": {"type": "case_valid", "chk": "chk_valid", "sig": "sig_valid", "scope": "Z_scope"},
+    },
+    "rule": "t2r: instants (years 1,2,4,100,399,400,401,1582,...,2024,2038,2100,2400,9998,9999 x leap days / month ends x day starts/ends x ns in {0,1,5e8,999999999}, random instants over years 1..9999) in twelve zones incl. +05:30, +05:45, -03:30, +13:45 -> UnmarshalTime -> Time. r2t: valid records (every month x first/last days, random) and invalid ones (Go normalises) -> Time -> UnmarshalTime. gnss: records x signed offsets {0, +-1, +-999999999, +-5e8, random} incl. second 0 and year boundaries. valid: all 256 validity bytes. non-trivial = non-UTC zone / non-zero ns / valid record / non-zero offset; distinct = distinct case terms",
+    "trusted": ["Go's time package is the reference for the calendar model (differential)"],
+    "assumptions": ["instants are compared as (Unix seconds, nanoseconds); monotonic clock readings and zone names are not part of an instant"],
+}
